@@ -250,28 +250,87 @@ ITEMS = location_types() + budget_types() + error_types() + [
     # merge expansion: order in which collected batches are flattened (own fields first, then merge
     # sources from last to first).  The node-level correspondence with the event stream is not proved
     # in this revision; the flattening order is (obligation `merge_sources_last_to_first`).
-    dict(src=D, path='fn pending_entries_from_live_events', trusted=True, props=[],
-         ensures=[('only_consumes', 'r is Ok ==> final(ev).rest().len() <= old(ev).rest().len()'),
-                  ('entries_are_captured_nodes', 'r is Ok && old(ev).rest().len() <= i32::MAX ==> pending_ok(r->Ok_0@)')]),
-    dict(src=D, path='fn collect_entries_from_map', props=['C03', 'C01'],
-         requires=[('stream_below_2_64_events', 'old(ev).rest().len() <= usize::MAX')],
+    # merge expansion (C03): the three mutually recursive functions.  Termination measure: number of events still to
+    # be read (a merge value is captured as a node that is shorter than what was left), then a rank.
+    dict(src=D, path='fn pending_entries_from_events', props=['C03', 'C01'],
+         rewrites=[(r'collect_entries_from_map\(&mut replay, ', 'collect_entries_from_map(replay_as_dyn(&mut replay), ', None, 'R34'),
+                   (r'capture_node\(&mut replay\)', 'capture_node(replay_as_dyn(&mut replay))', None, 'R34')],
+         requires=[('buffer_below_2g_events', 'events@.len() <= i32::MAX')],
+         ensures=[('C03:a_merge_value_is_null_a_mapping_or_a_sequence_anything_else_is_rejected', '''r is Ok ==> events@.len() > 0
+                        && (events@[0] is MapStart || events@[0] is SeqStart || (events@[0] is Scalar && spec_nullish(events@[0]->Scalar_value@, events@[0]->Scalar_style)))'''),
+                  ('entries_are_captured_nodes', 'r is Ok ==> pending_ok(r->Ok_0@)')],
+         decreases='events@.len(), 1int',
          proofs=[
+             dict(before='let mut element = capture_node(replay_as_dyn(&mut replay))?;', ghost=True, text='let ghost s1 = replay.rest();'),
+             dict(after='let mut element = capture_node(replay_as_dyn(&mut replay))?;', text='lemma_knode_bounds(s1, 0);'),
+             dict(before='let mut merged = Vec::new();', ghost=True, text='let ghost b0 = batches@;'),
+             dict(before='merged.append(&mut nested);', ghost=True, text='let ghost e_before = merged@; let ghost n0 = nested@;'),
+             dict(after='merged.append(&mut nested);', text='lemma_abs_entries_append(e_before, n0); lemma_pending_ok_append(e_before, n0);'),
+             dict(after_loop=2, label='C03:later_elements_of_a_merge_sequence_come_first',
+                  text='assert(concat_rev(batches@) =~= Seq::<AEnt>::empty()); assert(abs_entries(merged@) =~= concat_rev(b0));'),
+         ],
+         loops={
+             1: dict(header=r'^loop$', invariant=[('bounded', 'replay.rest().len() < events@.len() && events@.len() <= i32::MAX && batches_ok(batches@)')],
+                     decreases='replay.rest().len()'),
+             2: dict(header=r'^while let Some\(mut nested\) = batches\.pop\(\)$',
+                     invariant=[('newest_first', 'abs_entries(merged@) + concat_rev(batches@) =~= concat_rev(b0)'),
+                                ('captured', 'pending_ok(merged@) && batches_ok(batches@)')],
+                     ensures=[('all_used', 'batches@.len() == 0')],
+                     decreases='batches@.len()'),
+         },
+         canaries=['C03:a_merge_value_is_null_a_mapping_or_a_sequence_anything_else_is_rejected']),
+    dict(src=D, path='fn pending_entries_from_live_events', props=['C03', 'C01'],
+         requires=[('stream_below_2g_events', 'old(ev).rest().len() <= i32::MAX')],
+         ensures=[('only_consumes', 'r is Ok ==> final(ev).rest().len() <= old(ev).rest().len()'),
+                  ('entries_are_captured_nodes', 'r is Ok ==> pending_ok(r->Ok_0@)'),
+                  ('C03:a_merge_value_is_null_a_mapping_or_a_sequence_anything_else_is_rejected', '''r is Ok ==> old(ev).rest().len() > 0 && ({ let e = old(ev).rest()[0];
+                        e is MapStart || e is SeqStart || (e is Scalar && spec_nullish(e->Scalar_value@, e->Scalar_style)) })''')],
+         decreases='old(ev).rest().len(), 2int',
+         proofs=[
+             dict(at='start', ghost=True, text='let ghost s0 = ev.rest();'),
+             dict(after='let mut node = capture_node(ev)?;', text='lemma_knode_bounds(s0, 0);'),
+             dict(before='let mut element = capture_node(ev)?;', ghost=True, text='let ghost s1 = ev.rest();'),
+             dict(after='let mut element = capture_node(ev)?;', text='lemma_knode_bounds(s1, 0);'),
+             dict(before='let mut merged = Vec::new();', ghost=True, text='let ghost b0 = batches@;'),
+             dict(before='merged.append(&mut nested);', ghost=True, text='let ghost e_before = merged@; let ghost n0 = nested@;'),
+             dict(after='merged.append(&mut nested);', text='lemma_abs_entries_append(e_before, n0); lemma_pending_ok_append(e_before, n0);'),
+             dict(after_loop=2, label='C03:later_elements_of_a_merge_sequence_come_first',
+                  text='assert(concat_rev(batches@) =~= Seq::<AEnt>::empty()); assert(abs_entries(merged@) =~= concat_rev(b0));'),
+         ],
+         loops={
+             1: dict(header=r'^loop$', invariant=[('bounded', 'ev.rest().len() < s0.len() && s0.len() <= i32::MAX && s0 == old(ev).rest() && batches_ok(batches@)')],
+                     decreases='ev.rest().len()'),
+             2: dict(header=r'^while let Some\(mut nested\) = batches\.pop\(\)$',
+                     invariant=[('newest_first', 'abs_entries(merged@) + concat_rev(batches@) =~= concat_rev(b0)'),
+                                ('captured', 'pending_ok(merged@) && batches_ok(batches@)'),
+                                ('cursor', 'ev.rest().len() <= old(ev).rest().len()')],
+                     ensures=[('all_used', 'batches@.len() == 0')],
+                     decreases='batches@.len()'),
+         },
+         canaries=['C03:a_merge_value_is_null_a_mapping_or_a_sequence_anything_else_is_rejected']),
+    dict(src=D, path='fn collect_entries_from_map', props=['C03', 'C01'],
+         requires=[('stream_below_2g_events', 'old(ev).rest().len() <= i32::MAX')],
+         decreases='old(ev).rest().len(), 0int',
+         proofs=[
+             dict(at='start', ghost=True, text='let ghost s0 = ev.rest();'),
              dict(before='let key = capture_node(ev)?;', ghost=True, text='let ghost s1 = ev.rest();'),
              dict(after='let key = capture_node(ev)?;', text='lemma_knode_bounds(s1, 0);'),
              dict(before='let value = capture_node(ev)?;', ghost=True, text='let ghost s2 = ev.rest();'),
              dict(after='let value = capture_node(ev)?;', text='lemma_knode_bounds(s2, 0);'),
              dict(before='let mut entries = fields;', ghost=True, text='let ghost f0 = abs_entries(fields@); let ghost b0 = merges@;'),
              dict(before='entries.append(&mut nested);', ghost=True, text='let ghost e_before = entries@; let ghost n0 = nested@;'),
-             dict(after='entries.append(&mut nested);', text='lemma_abs_entries_append(e_before, n0);'),
+             dict(after='entries.append(&mut nested);', text='lemma_abs_entries_append(e_before, n0); lemma_pending_ok_append(e_before, n0);'),
              dict(after_loop=2, label='merge_sources_last_to_first',
                   text='assert(concat_rev(merges@) =~= Seq::<AEnt>::empty()); assert(abs_entries(entries@) =~= f0 + concat_rev(b0));'),
          ],
-         ensures=[('only_consumes', 'r is Ok ==> final(ev).rest().len() <= old(ev).rest().len()')],
+         ensures=[('only_consumes', 'r is Ok ==> final(ev).rest().len() <= old(ev).rest().len()'),
+                  ('entries_are_captured_nodes', 'r is Ok ==> pending_ok(r->Ok_0@)')],
          loops={
-             1: dict(header=r'^loop$', invariant=[('bounded', 'ev.rest().len() <= old(ev).rest().len() && old(ev).rest().len() <= usize::MAX')],
+             1: dict(header=r'^loop$', invariant=[('bounded', 'ev.rest().len() < s0.len() && s0 == old(ev).rest() && s0.len() <= i32::MAX && pending_ok(fields@) && batches_ok(merges@)')],
                      decreases='ev.rest().len()'),
              2: dict(header=r'^while let Some\(mut nested\) = merges\.pop\(\)$',
                      invariant=[('newest_batch_first', 'abs_entries(entries@) + concat_rev(merges@) =~= f0 + concat_rev(b0)'),
+                                ('captured', 'pending_ok(entries@) && batches_ok(merges@)'),
                                 ('cursor', 'ev.rest().len() <= old(ev).rest().len()')],
                      ensures=[('all_batches_used', 'merges@.len() == 0')],
                      decreases='merges@.len()'),
